@@ -6,6 +6,7 @@ import Gzx.Driver.C05
 import Gzx.Driver.C06
 import Gzx.Driver.C06Det
 import Gzx.Driver.C06Row128
+import Gzx.Driver.C06Rows
 import Gzx.Driver.C07
 import Gzx.Driver.C08
 import Gzx.Driver.C09
@@ -34,6 +35,7 @@ def dispatch (line : String) : String :=
   | "c06" :: rest => C06.handle rest
   | "c06det" :: rest => C06Det.handle rest
   | "row128" :: rest => C06Row128.handle rest
+  | "c06rows" :: rest => C06Rows.handle rest
   | "c07" :: rest => C07.handle rest
   | "c08" :: rest => C08.handle rest
   | "c09" :: rest => C09.handle rest
